@@ -46,6 +46,7 @@ type Frame struct {
 	stopAt  *ssa.BasicBlock // commutativity mode: stop the walk after establishing this loop header
 	stopped bool
 	regex   map[ssa.Value]string // values produced by regexp.MustCompile(<constant>): their RegLan term
+	lastSel *ssa.Select          // the select statement executed last on the current path (for selindex / selok / selrecv)
 }
 
 // regionSpec restricts encodeBody to one iteration of a map-range loop (commutativity obligations).
@@ -633,18 +634,7 @@ func (f *Frame) instr(in ssa.Instruction) {
 				f.havocVal(in, "bitwise complement in mode int")
 			}
 		case token.ARROW:
-			// other goroutines run while this one blocks: everything may change except what only this goroutine
-			// can change (which locks it holds)
-			keep := map[string]string{}
-			for k, v := range f.st.h {
-				if strings.HasPrefix(k, "GH_lock_") {
-					keep[k] = v
-				}
-			}
-			e.fullHavoc(f.st, "channel receive in "+f.fn.Name())
-			for k, v := range keep {
-				f.st.h[k] = v
-			}
+			f.blockingHavoc("channel receive in " + f.fn.Name())
 			if tup, ok := in.Type().(*types.Tuple); ok {
 				var rs []string
 				for i := 0; i < tup.Len(); i++ {
@@ -751,14 +741,36 @@ func (f *Frame) instr(in ssa.Instruction) {
 	case *ssa.RunDefers:
 		f.runDefers()
 	case *ssa.Go:
-		e.fullHavoc(f.st, "go statement in "+f.fn.Name())
+		// a goroutine whose body is a function (literal) under contract with a frame clause can, concurrently,
+		// change only what that frame allows; anything else started here may change everything
+		var gc *Contract
+		if callee := in.Call.StaticCallee(); callee != nil {
+			if c := e.P.CS.Funcs[fnKey(callee)]; c != nil && (c.HasMod || len(c.ModComps) > 0) && len(c.Modifies) == 0 {
+				gc = c
+			}
+		}
+		if gc != nil {
+			if len(gc.ModComps) > 0 {
+				e.havocMatching(f.st, gc.ModComps)
+			}
+			e.note("go statement in %s: the goroutine body %s is under contract; only its frame is havocked", f.fn.Name(), shortKey(gc.Key()))
+		} else {
+			e.fullHavoc(f.st, "go statement in "+f.fn.Name())
+		}
 	case *ssa.MakeClosure:
 		f.vals[in] = e.symbolic(f.prefix+in.Name(), in.Type(), f.st, f.reach)
 		e.assume(f.reach, fmt.Sprintf("(not (= %s 0))", f.vals[in]))
 	case *ssa.Send:
-		e.fullHavoc(f.st, "channel send in "+f.fn.Name())
+		f.chanSend(f.val(in.Chan), f.val(in.X), in.Chan.Type(), in.X.Type(), in)
+		f.blockingHavoc("channel send in " + f.fn.Name())
 	case *ssa.Select:
-		e.fullHavoc(f.st, "select in "+f.fn.Name())
+		for _, stt := range in.States {
+			if stt.Dir == types.SendOnly {
+				f.chanSend(f.val(stt.Chan), f.val(stt.Send), stt.Chan.Type(), stt.Send.Type(), in)
+			}
+		}
+		f.blockingHavoc("select in " + f.fn.Name())
+		f.lastSel = in
 		tup := in.Type().(*types.Tuple)
 		var rs []string
 		for i := 0; i < tup.Len(); i++ {
@@ -1535,5 +1547,46 @@ func (f *Frame) storeGuard(addr ssa.Value, val string, in ssa.Instruction) {
 		}
 		e.safetyOrd["store."+key]++
 		e.oblige("guard", fmt.Sprintf("%s#guard[store.%s#%d.%s]", e.unit.Key(), key, e.safetyOrd["store."+key], lab), lab, f.reach, goal, e.P.pos(in.Pos()))
+	}
+}
+
+// blockingHavoc: other goroutines run while this one blocks: everything may change except what only this
+// goroutine can change (which locks it holds).
+func (f *Frame) blockingHavoc(why string) {
+	keep := map[string]string{}
+	for k, v := range f.st.h {
+		if strings.HasPrefix(k, "GH_lock_") {
+			keep[k] = v
+		}
+	}
+	f.e.fullHavoc(f.st, why)
+	for k, v := range keep {
+		f.st.h[k] = v
+	}
+}
+
+// chanSend: obligations of the unit's chansend clauses for one send (ch <- val).
+func (f *Frame) chanSend(ch, val string, cht, valt types.Type, in ssa.Instruction) {
+	e := f.e
+	if f.depth != 0 {
+		return
+	}
+	for _, cs := range e.unit.ChanSends {
+		vars := map[string]CVal{}
+		for k, pv := range f.params {
+			vars[k] = pv
+		}
+		vars["ch"] = CVal{S: ch, T: cht}
+		vars["val"] = CVal{S: val, T: valt}
+		errs := []string{}
+		env := &CEnv{e: e, vars: vars, st: f.st, old: f.entrySt, pkg: f.fn.Pkg.Pkg, frame: f, at: in.Block(), lets: e.unit.Lets, errs: &errs}
+		goal := env.evalBool(cs.Expr)
+		f.reportEnvErrs(env, cs)
+		lab := cs.Label
+		if lab == "" {
+			lab = "s"
+		}
+		e.safetyOrd["chansend"]++
+		e.oblige("guard", fmt.Sprintf("%s#guard[chansend#%d.%s]", e.unit.Key(), e.safetyOrd["chansend"], lab), lab, f.reach, goal, e.P.pos(in.Pos()))
 	}
 }
